@@ -579,4 +579,48 @@ theorem nextTurn_first (s : St) (node : String) (out : List Tok) (w : Tok)
 example : turnsRun.all (fun s => decide (s.parked.Nodup)) = true ∧ turnsRun.any (fun s => s.parked.length == 1) = true := by
   decide
 
+/-! ## returns at two different sub-process nodes commute -/
+
+/-- removing a token that waits at `node` does not change who waits first at another node -/
+theorem find_other (l : List Tok) (w : Tok) (node' : String) (h : w.node ≠ node') :
+    (l.filter (· != w)).find? (·.node == node') = l.find? (·.node == node') := by
+  induction l with
+  | nil => rfl
+  | cons x xs ih =>
+    by_cases e : x = w
+    · subst e
+      have : (x.node == node') = false := by simpa using h
+      simp [this, ih]
+    · have hx : (x != w) = true := by simpa using e
+      simp only [List.filter_cons, hx, if_true, List.find?_cons]
+      rw [ih]
+
+/-- RETURNS AT TWO DIFFERENT NODES COMMUTE: whichever of two sub-process nodes hands over first, the same token takes its
+turn at each and the same tokens keep waiting — the order in which concurrent activations return is not observable -/
+theorem nextTurn_comm (s : St) (node node' : String) (h : node ≠ node') :
+    (nextTurn (nextTurn s node []).2 node' []).1 = (nextTurn s node' []).1 ∧
+    (nextTurn (nextTurn s node' []).2 node []).1 = (nextTurn s node []).1 ∧
+    (nextTurn (nextTurn s node []).2 node' []).2.parked = (nextTurn (nextTurn s node' []).2 node []).2.parked := by
+  simp only [nextTurn_fst]
+  cases hf : s.parked.find? (·.node == node) with
+  | none =>
+    cases hg : s.parked.find? (·.node == node') with
+    | none => simp [nextTurn, hf, hg]
+    | some v =>
+      have hv : v.node = node' := by simpa using List.find?_some hg
+      have := find_other s.parked v node (by rw [hv]; exact fun e => h e.symm)
+      simp [nextTurn, hf, hg, this]
+  | some w =>
+    have hw : w.node = node := by simpa using List.find?_some hf
+    have h1 := find_other s.parked w node' (by rw [hw]; exact h)
+    cases hg : s.parked.find? (·.node == node') with
+    | none => simp [nextTurn, hf, hg, h1]
+    | some v =>
+      have hv : v.node = node' := by simpa using List.find?_some hg
+      have h2 := find_other s.parked v node (by rw [hv]; exact fun e => h e.symm)
+      simp only [nextTurn, hf, hg, h1, h2, List.nil_append, true_and, List.filter_filter]
+      apply List.filter_congr
+      intro x _
+      exact Bool.and_comm _ _
+
 end Bpmn.Props.C12Turns
